@@ -185,7 +185,7 @@ package algz
 //@ func intersect
 //@   ghost w = anyseq()
 //@   ghost pos = anyseq()
-//@   ensures (len(result) == 0 || fresh(result)) && len(result) <= len(a)
+//@   ensures (cap(result) == 0 || fresh(result)) && len(result) <= len(a)
 //@   ensures forall j in 0..len(result): 0 <= w[j] && w[j] < len(a) && result[j] == a[w[j]] && has(b, a[w[j]])
 //@   ensures forall j in 0..len(result)-1: w[j] < w[j+1]
 //@   ensures forall k in 0..len(a): has(b, a[k]) ==> 0 <= pos[k] && pos[k] < len(result) && w[pos[k]] == k
